@@ -1,13 +1,207 @@
-(* C33 — JSON encodings of zcrypto value types round-trip.  Property theorems only. *)
-From Coq Require Import List NArith ZArith Bool String.
+(* C33 — JSON encodings of zcrypto value types round-trip.
+   Property theorems only; each is closed by [exact] of a lemma from
+   proof/C33JsonProofs.v, proof/C33Proofs.v or proof/C33ProofsX.v.
+
+   Reading guide: [X_to_json]/[enc c] is the model of MarshalJSON (glue +
+   encoding/json's view of the auxiliary struct), [X_of_json]/[dec c] the model of
+   UnmarshalJSON; results are [Ok v | Err | Panic].  Go ints are Z, byte strings
+   are Coq strings, a *big.Int is its magnitude bytes ([None] = nil). *)
+From Coq Require Import List NArith ZArith Bool String Ascii.
 From VerifModel Require Import C33Json C33.
-From VerifProof Require Import C33JsonProofs C33Proofs.
+From VerifGen Require Import C33Tables_gen.
+From VerifProof Require Import C33JsonProofs C33Proofs C33ProofsX.
 Import ListNotations.
+Local Open Scope string_scope.
+
+(* ---------------- text leaf codecs ---------------- *)
+Theorem C33_base64_roundtrip : forall s, b64dec (b64enc s) = Some s.
+Proof. exact b64_roundtrip. Qed.
+Print Assumptions C33_base64_roundtrip.
+
+Theorem C33_hex_roundtrip : forall up s, hex_dec (hex_enc up s) = Some s.
+Proof. exact hex_roundtrip. Qed.
+Print Assumptions C33_hex_roundtrip.
+
+(* dot notation of an OID with at least one arc, arcs within the parser's integer width *)
+Theorem C33_oid_dot_notation_roundtrip : forall bits o,
+  o <> [] -> Forall (fun z => (- 2 ^ (Z.of_N bits - 1) <= z < 2 ^ (Z.of_N bits - 1))%Z) o ->
+  parse_oid bits (oid_str o) = Some o.
+Proof. exact oid_roundtrip. Qed.
+Print Assumptions C33_oid_dot_notation_roundtrip.
+
+(* encoding/json on an auxiliary struct whose members round-trip and whose keys are distinct *)
+Theorem C33_struct_members_roundtrip : forall T U (fs : fields T U) valid norm,
+  fields_rt fs valid norm -> forall v, valid v -> dec_fields fs (enc_fields fs v) = Ok (norm v).
+Proof. exact @fields_roundtrip. Qed.
+Print Assumptions C33_struct_members_roundtrip.
+
+(* ---------------- enumerated types: every code point ---------------- *)
+Theorem C33_tls_version_roundtrip : forall v, (0 <= v < 2 ^ 16)%Z -> version_of_json (version_to_json v) = Ok v.
+Proof. exact version_roundtrip. Qed.
+Print Assumptions C33_tls_version_roundtrip.
 
 Theorem C33_cipher_suite_roundtrip : forall v, (0 <= v < 2 ^ 16)%Z -> cipher_of_json (cipher_to_json v) = Ok v.
 Proof. exact cipher_roundtrip. Qed.
 Print Assumptions C33_cipher_suite_roundtrip.
 
+Theorem C33_compression_method_roundtrip : forall v, (0 <= v < 2 ^ 8)%Z -> compression_of_json (compression_to_json v) = Ok v.
+Proof. exact compression_roundtrip. Qed.
+Print Assumptions C33_compression_method_roundtrip.
+
+Theorem C33_curve_id_roundtrip : forall v, (0 <= v < 2 ^ 16)%Z -> curve_of_json (curve_to_json v) = Ok v.
+Proof. exact curve_roundtrip. Qed.
+Print Assumptions C33_curve_id_roundtrip.
+
+Theorem C33_point_format_roundtrip : forall v, (0 <= v < 2 ^ 8)%Z -> point_format_of_json (point_format_to_json v) = Ok v.
+Proof. exact point_format_roundtrip. Qed.
+Print Assumptions C33_point_format_roundtrip.
+
+(* decoded BY NAME, with the "unknown.N" fall-back: finite check against the regenerated
+   signatureNames / hashNames tables (fails to build when two codes share a name) *)
+Theorem C33_signature_and_hash_roundtrip : forall s h, (0 <= s < 2 ^ 8)%Z -> (0 <= h < 2 ^ 8)%Z ->
+  sighash_of_json (sighash_to_json s h) = Ok (s, h).
+Proof. exact sighash_roundtrip. Qed.
+Print Assumptions C33_signature_and_hash_roundtrip.
+
+(* every Go int, named or "ClientAuthType(N)" *)
+Theorem C33_client_auth_type_roundtrip : forall v, (- 2 ^ 63 <= v < 2 ^ 63)%Z ->
+  client_auth_of_json (client_auth_to_json v) = Ok v.
+Proof. exact client_auth_roundtrip. Qed.
+Print Assumptions C33_client_auth_type_roundtrip.
+
+Theorem C33_key_usage_roundtrip : forall v, (0 <= v < 2 ^ 32)%Z -> key_usage_of_json (key_usage_to_json v) = Ok v.
+Proof. exact key_usage_roundtrip. Qed.
+Print Assumptions C33_key_usage_roundtrip.
+
+(* declared public-key algorithms (0 .. total_key_algorithms-1), decoded by name *)
+Theorem C33_public_key_algorithm_roundtrip : forall v, (0 <= v < pubkey_alg_count)%Z ->
+  pubkey_alg_of_json (pubkey_alg_to_json v) = Ok v.
+Proof. exact pubkey_alg_roundtrip. Qed.
+Print Assumptions C33_public_key_algorithm_roundtrip.
+
+(* named signature algorithms, decoded by OID (RSA-PSS by name).  The unknown
+   algorithm 0 is an error on purpose: x509/json_test.go requires it. *)
+Theorem C33_signature_algorithm_roundtrip : forall v, (1 <= v < sig_alg_count)%Z ->
+  sig_alg_of_json (sig_alg_to_json v) = Ok v.
+Proof. exact sig_alg_roundtrip. Qed.
+Print Assumptions C33_signature_algorithm_roundtrip.
+
+Theorem C33_signature_algorithm_unknown_is_an_error : sig_alg_of_json (sig_alg_to_json 0) = Err.
+Proof. exact sig_alg_unknown_is_an_error. Qed.
+Print Assumptions C33_signature_algorithm_unknown_is_an_error.
+
+Theorem C33_tls_curve_id_roundtrip : forall v, (0 <= v < 2 ^ 16)%Z -> dec c_ecid (enc c_ecid v) = Ok v.
+Proof. exact ecid_roundtrip. Qed.
+Print Assumptions C33_tls_curve_id_roundtrip.
+
+(* ---------------- key parameters ---------------- *)
+(* okmag b: b is a magnitude as big.Int.Bytes() returns it (no leading zero byte), 8*|b| fits an int *)
+Theorem C33_crypto_parameter_roundtrip : forall p, ookmag p -> dec c_cparam (enc c_cparam p) = Ok (or_empty p).
+Proof. exact (fun p H => codec_rt_dec c_cparam _ _ p cparam_rt H). Qed.
+Print Assumptions C33_crypto_parameter_roundtrip.
+
+(* a point without Y (X25519) comes back without Y; a nil X is written as an empty value and comes back as 0 *)
+Theorem C33_ecpoint_roundtrip : forall p, ecpoint_ok p ->
+  dec c_ecpoint (enc c_ecpoint p) = Ok (Some (or_empty (fst p)), snd p).
+Proof. exact (fun p H => codec_rt_dec c_ecpoint _ _ p ecpoint_rt H). Qed.
+Print Assumptions C33_ecpoint_roundtrip.
+
+(* the defect that was repaired: the unrepaired UnmarshalJSON dereferences the absent Y *)
+Theorem C33_ecpoint_unrepaired_panics : ecpoint_dec_unrepaired (ecpoint_enc (Some (bs [5%N]), None)) = Panic.
+Proof. exact ecpoint_unrepaired_panics. Qed.
+Print Assumptions C33_ecpoint_unrepaired_panics.
+
+Theorem C33_dh_params_roundtrip : forall p, dh_ok p -> dec c_dh (enc c_dh p) = Ok (dh_norm p).
+Proof. exact (fun p H => codec_rt_dec c_dh _ _ p dh_rt H). Qed.
+Print Assumptions C33_dh_params_roundtrip.
+
+Theorem C33_ecdh_params_roundtrip : forall p, ecdh_ok p -> dec c_ecdh (enc c_ecdh p) = Ok (ecdh_norm p).
+Proof. exact (fun p H => codec_rt_dec c_ecdh _ _ p ecdh_rt H). Qed.
+Print Assumptions C33_ecdh_params_roundtrip.
+
+Theorem C33_rsa_public_key_roundtrip : forall p, rsapub_ok p -> dec c_rsapub (enc c_rsapub p) = Ok (rsapub_norm p).
+Proof. exact (fun p H => codec_rt_dec c_rsapub _ _ p rsapub_rt H). Qed.
+Print Assumptions C33_rsa_public_key_roundtrip.
+
+Theorem C33_rsa_client_params_roundtrip : forall p : rsaclient_t, (0 <= fst p <= 65535)%Z ->
+  dec c_rsaclient (enc c_rsaclient p) = Ok p.
+Proof. exact (fun p H => codec_rt_dec c_rsaclient _ _ p rsaclient_rt H). Qed.
+Print Assumptions C33_rsa_client_params_roundtrip.
+
+(* ---------------- pkix ---------------- *)
+Theorem C33_aux_oid_roundtrip : forall o, o <> [] /\ arcs64 o /\ nonneg o -> dec c_auxoid (enc c_auxoid o) = Ok o.
+Proof. exact (fun o H => codec_rt_dec c_auxoid _ _ o auxoid_rt H). Qed.
+Print Assumptions C33_aux_oid_roundtrip.
+
+Theorem C33_attribute_type_and_value_roundtrip : forall a : oid_t * option string, arcs64 (fst a) ->
+  dec c_atv (enc c_atv a) = Ok (fst a, or_empty (snd a)).
+Proof. exact (fun a H => codec_rt_dec c_atv _ _ a atv_rt H). Qed.
+Print Assumptions C33_attribute_type_and_value_roundtrip.
+
+Theorem C33_other_name_roundtrip : forall a : oid_t * string, fst a <> [] /\ arcs64 (fst a) ->
+  dec c_othername (enc c_othername a) = Ok a.
+Proof. exact (fun a H => codec_rt_dec c_othername _ _ a othername_rt H). Qed.
+Print Assumptions C33_other_name_roundtrip.
+
+Theorem C33_edi_party_name_roundtrip : forall e : edi_t, dec c_edi (enc c_edi e) = Ok e.
+Proof. exact (fun e => codec_rt_dec c_edi _ _ e edi_rt I). Qed.
+Print Assumptions C33_edi_party_name_roundtrip.
+
+Theorem C33_extension_roundtrip : forall e : ext_t, fst e <> [] /\ arcs64 (fst e) -> dec c_ext (enc c_ext e) = Ok e.
+Proof. exact (fun e H => codec_rt_dec c_ext _ _ e ext_rt H). Qed.
+Print Assumptions C33_extension_roundtrip.
+
+(* a distinguished name (any attribute sequence): decoding never fails and every typed list is
+   the list of the values of that attribute type, in RDN order; CommonName / SerialNumber the first *)
+Theorem C33_name_roundtrip : forall attrs, dec c_name (enc c_name attrs) = Ok (name_norm attrs).
+Proof. exact (fun a => codec_rt_dec c_name _ _ a name_rt I). Qed.
+Print Assumptions C33_name_roundtrip.
+
+Theorem C33_name_members : forall attrs,
+  let n := name_norm attrs in
+  n_country n = bucket o_country attrs /\ n_org n = bucket o_org attrs /\ n_ou n = bucket o_ou attrs
+  /\ n_locality n = bucket o_locality attrs /\ n_province n = bucket o_province attrs
+  /\ n_street n = bucket o_street attrs /\ n_postal n = bucket o_postal attrs /\ n_dc n = bucket o_dc attrs
+  /\ n_email n = bucket o_email attrs /\ n_given n = bucket o_given attrs /\ n_surname n = bucket o_surname attrs
+  /\ n_orgids n = bucket o_orgid attrs /\ n_jc n = bucket o_jc attrs /\ n_jl n = bucket o_jl attrs
+  /\ n_jp n = bucket o_jp attrs
+  /\ n_cn n = hd_s (bucket o_cn attrs) /\ n_serial n = hd_s (bucket o_serial attrs).
+Proof. exact name_members. Qed.
+Print Assumptions C33_name_members.
+
+(* ---------------- x509 ---------------- *)
+Theorem C33_general_names_roundtrip : forall g, gn_ok g -> dec c_gn (enc c_gn g) = Ok (gn_norm g).
+Proof. exact (fun g H => codec_rt_dec c_gn _ _ g gn_rt H). Qed.
+Print Assumptions C33_general_names_roundtrip.
+
+Theorem C33_subtree_ip_roundtrip : forall g, subip_ok g -> dec c_subip (enc c_subip g) = Ok g.
+Proof. exact (fun g H => codec_rt_dec c_subip _ _ g subip_rt H). Qed.
+Print Assumptions C33_subtree_ip_roundtrip.
+
+Theorem C33_name_constraints_roundtrip : forall c, nc_ok c -> dec c_nc (enc c_nc c) = Ok (nc_norm c).
+Proof. exact (fun c H => codec_rt_dec c_nc _ _ c nc_rt H). Qed.
+Print Assumptions C33_name_constraints_roundtrip.
+
 Theorem C33_fingerprint_roundtrip : forall f, dec c_fingerprint (enc c_fingerprint f) = Ok f.
-Proof. exact fingerprint_roundtrip. Qed.
+Proof. exact (fun f => codec_rt_dec c_fingerprint _ _ f fingerprint_rt I). Qed.
 Print Assumptions C33_fingerprint_roundtrip.
+
+(* ---------------- CT ---------------- *)
+Theorem C33_digitally_signed_roundtrip : forall d, ds_ok d ->
+  exists j, ds_marshal d = Ok j /\ ds_unmarshal j = Ok d.
+Proof. exact ds_rt. Qed.
+Print Assumptions C33_digitally_signed_roundtrip.
+
+Theorem C33_digitally_signed_too_long_is_an_error : forall d, (65535 < slen (snd (snd d)))%N -> ds_marshal d = Err.
+Proof. exact ds_too_long. Qed.
+Print Assumptions C33_digitally_signed_too_long_is_an_error.
+
+Theorem C33_sha256_hash_roundtrip : forall h, String.length h = 32%nat -> sha256_unmarshal (sha256_marshal h) = Ok h.
+Proof. exact sha256_rt. Qed.
+Print Assumptions C33_sha256_hash_roundtrip.
+
+(* ---------------- totality ---------------- *)
+(* no UnmarshalJSON of the (repaired) model panics, whatever tree it is given *)
+Theorem C33_unmarshal_never_panics : forall t j, of_json t j <> Panic.
+Proof. exact of_json_total. Qed.
+Print Assumptions C33_unmarshal_never_panics.
